@@ -717,8 +717,11 @@ def fam_chain_many_templates(rng, sizes=(1100,)):
     out = []
     for M in sizes:
         for proto in (9, 10):
-            ids = [256 + i for i in range(M)]
-            probe = [ids[0], ids[M // 2], ids[-1]]
+            # an IPFIX message carries its own 16-bit length: 16 + 18 bytes per one-template set (22 per options-template set) must
+            # stay below 65536, otherwise the encoder's length field wraps and the "chain" is not a chain of messages at all
+            Mp = M if proto == 9 else min(M, 2900)
+            ids = [256 + i for i in range(Mp)]
+            probe = [ids[0], ids[Mp // 2], ids[-1]]
             if proto == 9:
                 def m9(sets, k):
                     return {"v9": {"m": {"count": len(sets), "sysUpTime": k, "unixSecs": k, "seq": k, "sourceId": 1, "sets": sets}}}
@@ -1043,6 +1046,77 @@ def fam_setorder(rng, n, protos=(9, 10), exhaustive=False, want=WANT_ALL):
                     o["unknown_proto"] = proto
                 ops.append(o)
             out.append(("setorder-%d" % proto, ops))
+    return out
+
+
+def fam_trunc_history(rng, n):
+    """C14 over a HISTORY: an earlier call on the same parser ended in a cut packet that announced a large size (a partial packet a
+    resumable parser might keep); the next call holds complete packets followed by another cut packet, shorter than that size"""
+    out = []
+    for _ in range(n):
+        ex = Exporter(rng, lossless=True, simple_ipfix=True)
+        big = rng.choice(["v5", "v7", "ipfix"])
+        if big == "v5":
+            first = msg_v5(rng, rng.choice([20, 30, 60]))
+        elif big == "v7":
+            first = msg_v7(rng, rng.choice([20, 30, 60]))
+        else:
+            first = {"raw": {"b": hx((10).to_bytes(2, "big") + rng.choice([1000, 4000, 65535]).to_bytes(2, "big") + rbytes(rng, 12) + rbytes(rng, 24))}}
+        pre = rand_packets(rng, ex, rng.choice([1, 1, 2, 3]))
+        v = rng.choice([5, 7, 10])
+        last = msg_v5(rng, rng.randrange(1, 4)) if v == 5 else (msg_v7(rng, rng.randrange(1, 4)) if v == 7 else rand_packets(rng, ex, 1, versions=(10,))[0])
+        ops = [op_new(0), op_new(1)]
+        for pid in (0, 1):
+            o = op_parse(pid, msgs=[first], want=[])
+            if "raw" not in first:
+                o["cutfrac"] = rng.choice([100, 200, 400])
+            ops.append(o)
+        if rng.random() < 0.5:
+            for pid in (0, 1):
+                ops.append(op_parse(pid, msgs=[msg_v5(rng, 1)], want=[]))        # a complete packet in between
+        o = op_parse(0, msgs=pre + [last], want=[])
+        o["cutfrac"] = rng.randrange(50, 1000)
+        ops.append(o)
+        ops.append(op_parse(1, msgs=pre, want=[]))
+        ops.append({"op": "assert_trunc", "a": 0, "b": 1, "cutlen": "last", "keep_state": True})
+        out.append(("trunc-history", ops))
+    return out
+
+
+def fam_budget(rng, tier="quick"):
+    """a per-call / per-message BUDGET of decoded values, fields or records, if the code has one, is met exactly: for every integer
+    literal L of the source in 500..70000 (65535, 1024, 4096 … — harvested on this run, so a limit introduced by an edit is among them)
+    an IPFIX and a V9 message whose FIRST data set decodes just under L values (templates with zero-length fields: many values per
+    byte) followed by a second and third data set in the same message, after the template was cached by an earlier call"""
+    out = []
+    lits = sorted(set(v for v in LITERALS if 500 <= v <= 70000) | {1024, 4096, 65535})
+    if tier == "quick":
+        lits = [v for v in lits if v in (1023, 1024, 1025, 4096, 65534, 65535)] + [v for v in lits if v not in (1023, 1024, 1025, 4096, 65534, 65535)][:4]
+    for L in lits:
+        for f in (64, 63, 5):
+            n1 = (L - 1) // f
+            if n1 == 0 or n1 > 20000:
+                continue
+            ipf = [{"typ": 82, "len": 0, "ent": None}] * (f - 1) + [{"typ": 4, "len": 1, "ent": None}]
+            tm = {"ipfix": {"m": {"exportTime": 1, "seq": 1, "odid": 1, "sets": [{"templates": {"ts": [{"id": 256, "fields": ipf}], "pad": ""}}]}}}
+            rec = [{"content": "", "form": "fixed"}] * (f - 1) + [{"content": "07", "form": "fixed"}]
+            dm = {"ipfix": {"m": {"exportTime": 2, "seq": 2, "odid": 1, "sets": [{"data": {"id": 256, "recs": [rec] * n1, "pad": ""}},
+                                                                                  {"data": {"id": 256, "recs": [rec] * 2, "pad": ""}},
+                                                                                  {"data": {"id": 256, "recs": [rec] * (f + 1), "pad": ""}}]}}}
+            ops = [op_new(0)]
+            for m, w in ((tm, []), (dm, ["export", "common"])):
+                o = op_parse(0, msgs=[m], want=w); o["nospec"] = True; ops.append(o)
+            out.append(("budget-ipfix-%d" % L, ops))
+            v9f = [{"typ": 94, "len": 0}] * (f - 1) + [{"typ": 4, "len": 1}]
+            t9 = {"v9": {"m": {"count": 1, "sysUpTime": 1, "unixSecs": 1, "seq": 1, "sourceId": 1, "sets": [{"templates": {"ts": [{"id": 256, "fieldCount": f, "fields": v9f}], "pad": ""}}]}}}
+            r9 = [""] * (f - 1) + ["07"]
+            d9 = {"v9": {"m": {"count": 3, "sysUpTime": 2, "unixSecs": 2, "seq": 2, "sourceId": 1, "sets": [{"data": {"id": 256, "recs": [r9] * n1, "pad": ""}},
+                                                                                                      {"data": {"id": 256, "recs": [r9] * 2, "pad": ""}},
+                                                                                                      {"data": {"id": 256, "recs": [r9] * (f + 1), "pad": ""}}]}}}
+            ops = [op_new(0)]
+            for m, w in ((t9, []), (d9, ["export", "common"])):
+                o = op_parse(0, msgs=[m], want=w); o["nospec"] = True; ops.append(o)
+            out.append(("budget-v9-%d" % L, ops))
     return out
 
 
